@@ -419,7 +419,9 @@ class C13(object):
             im = np.array(desc["image"], np.float32).reshape(ns, nf)
             lab = enginea.garbage_array((ns, nf), np.int32, gs + 1, desc["gstyle"], -3, 60)
             wrk = enginea.garbage_array((ns, nf), np.uint8, gs + 2, desc["gstyle"], 0, 10)
-            enginea.apply_cfg(sim, cfg, strict=1, track_conflicts=1, pct_est=8 * ns * nf, step_cap=200 * ns * nf + 100000,
+            enginea.apply_cfg(sim, cfg, strict=1, track_conflicts=1, pct_est=8 * ns * nf,
+                              # following a pixel to its maximum is linear in the path length: a snake-like ridge makes it quadratic
+                              step_cap=8 * (ns * nf) ** 2 + 200 * ns * nf + 100000,
                               replay=desc.get("replay"))
             sim.begin_run()
             sim.register(im, simlib.R, 1)
@@ -451,7 +453,7 @@ class C13(object):
             MV = enginea.garbage_array((n,), np.float32, gs + 1, desc["gstyle"])
             iMV = enginea.garbage_array((n,), np.int32, gs + 2, desc["gstyle"], -2, n + 2)
             lab = enginea.garbage_array((n,), np.int32, gs + 3, desc["gstyle"], -2, n + 2)
-            enginea.apply_cfg(sim, cfg, strict=1, track_conflicts=0, step_cap=400 * n + 100000)
+            enginea.apply_cfg(sim, cfg, strict=1, track_conflicts=0, step_cap=8 * n * n + 400 * n + 100000)
             sim.begin_run()
             for k, (a, perm) in enumerate([(val, simlib.R), (row, simlib.R), (col, simlib.R), (MV, simlib.RW),
                                            (iMV, simlib.RW), (lab, simlib.RW)]):
